@@ -163,6 +163,75 @@ def check_cpu_bin(prog, rep, m):
             'the cell value must not be narrowed before it is compared with the breaks: %s' % ([norm(n) for n in narrow] or casts))
 
 
+def check_bin_search(prog, rep, m):
+    """K4-search: the per-cell code of the binning kernel - finite test, first-bin test, hand-written binary search, label
+    store - touches the cell value and the breaks only through comparisons and integer index arithmetic.  It is folded
+    (consteval: the pure-Python subset, no library code is run) for every ascending break list of 1..7 breaks and a cell value
+    at every position relative to them - below the first, on each break, between each pair, above the last - and for NaN,
+    +inf, -inf: the cell must get the label of the first break that is >= the value, and NaN when there is none or the value
+    is not finite.  Exhaustive over the positions for these break counts (the search's behaviour depends on the count)."""
+    from ..consteval import CannotFold, Folder, _Continue
+    f = m.funcs.get('_cpu_bin')
+    entry = 'reclassify/_bin'
+    data, others = kernel_roles(f)
+    stored = {x.value.value.id for x in ast.walk(f.node) if isinstance(x, ast.Assign) and isinstance(x.targets[0], ast.Subscript) and
+              isinstance(x.value, ast.Subscript) and isinstance(x.value.value, ast.Name) and x.value.value.id in others}
+    if len(others) != 2 or len(stored) != 1:
+        return
+    newv = next(iter(stored))
+    bins = [p for p in others if p != newv][0]
+    # the innermost of the two loops over the raster, and the scalar statements in front of them
+    loops = [n for n in f.node.body if isinstance(n, ast.For)]
+    inner = None
+    for L0 in loops:
+        for L1 in [n for n in L0.body if isinstance(n, ast.For)]:
+            if isinstance(L0.target, ast.Name) and isinstance(L1.target, ast.Name) and any(
+                    isinstance(x, ast.Subscript) and isinstance(x.value, ast.Name) and x.value.id == data for x in ast.walk(L1)):
+                inner = (L0, L1)
+    outs = {x.targets[0].value.id for x in ast.walk(f.node) if isinstance(x, ast.Assign) and isinstance(x.targets[0], ast.Subscript) and
+            isinstance(x.targets[0].value, ast.Name) and isinstance(x.targets[0].slice, ast.Tuple)}
+    if inner is None or len(outs) != 1:
+        rep.add('K4-search', f, entry, 'per-cell code', f.node.lineno, None, 'the loop over the cells / the output array was not found')
+        return
+    outn = next(iter(outs))
+    L0, L1 = inner
+    NAN = float('nan')
+    pre = [s_ for s_ in f.node.body if s_ is not L0 and isinstance(s_, ast.Assign) and not any(
+        isinstance(x, ast.Name) and x.id in (data, outn) for x in ast.walk(s_))]
+    bad, n = [], 0
+    try:
+        for nb in range(1, 8):
+            brk = [10 * (i + 1) for i in range(nb)]
+            vals = [5] + [v for i in range(nb) for v in (10 * (i + 1), 10 * (i + 1) + 5)] + [NAN, float('inf'), float('-inf')]
+            for v in vals:
+                env = {data: {(0, 0): v}, bins: list(brk), newv: [100 + i for i in range(nb)], outn: {(0, 0): NAN},
+                       L0.target.id: 0, L1.target.id: 0}
+                fo = Folder(prog, f.module)
+                for s_ in pre:
+                    try:
+                        fo.block([s_], env)
+                    except CannotFold:
+                        pass
+                try:
+                    fo.block(L1.body, env)
+                except _Continue:
+                    pass
+                got = env[outn][(0, 0)]
+                finite = v == v and v not in (float('inf'), float('-inf'))
+                first = next((i for i in range(nb) if finite and v <= brk[i]), None)
+                want = NAN if first is None else 100 + first
+                n += 1
+                if not ((got != got and want != want) or got == want):
+                    bad.append('%d breaks %s, cell value %s: label of break %s, expected %s' % (
+                        nb, brk, v, ('#%d' % (got - 100)) if got == got else 'none (NaN)', ('#%d' % first) if first is not None else 'none (NaN)'))
+    except (CannotFold, KeyError, IndexError, TypeError) as e:
+        rep.add('K4-search', f, entry, 'per-cell code', L1.lineno, None, 'per-cell code not evaluable: %s' % e)
+        return
+    rep.add('K4-search', f, entry, 'class of a cell for 1..7 breaks x every position of the value (%d cases)' % n, L1.lineno, not bad,
+            'a value belongs to the first bin whose upper bound is >= the value; above the last bound and for NaN / inf it gets NaN: '
+            + '; '.join(bad[:3]), facts={'evaluations': n})
+
+
 def check_binary(prog, rep, m):
     f = m.funcs.get('_cpu_binary')
     if f is None:
@@ -817,6 +886,7 @@ def check(prog, rep):
     check_bins_not_narrowed(prog, rep, m)
     check_input_not_reordered(prog, rep, m)
     check_cpu_bin(prog, rep, m)
+    check_bin_search(prog, rep, m)
     check_binary(prog, rep, m)
     check_labels(prog, rep, m)
     check_precision(prog, rep, m)
@@ -833,6 +903,7 @@ def check(prog, rep):
             check_dispatch_passthrough(prog, rep, 'K7-pass', m.funcs[fn])
     rep.floor('K7-pass', 8)
     rep.floor('K1', 5)
+    rep.floor('K4-search', 1)
     rep.floor('K2', 4)
     rep.floor('K3', 4)
     rep.floor('K4', 6)
